@@ -406,7 +406,7 @@ def mutate(obj, seen, depth=0):
     elif dataclasses.is_dataclass(obj):
         for f in dataclasses.fields(obj):
             if f.name == 'parent_sequence':
-                continue  # documented back-reference to the caller's peptide
+                continue  # back-reference (a FragmentMatch holds the caller's Fragment by design); see _holds_argument
             v = getattr(obj, f.name, None)
             mutate(v, seen, depth + 1)
             if isinstance(v, (str, int, float)) or v is None:
@@ -417,6 +417,31 @@ def mutate(obj, seen, depth=0):
     elif hasattr(obj, '__dict__'):
         for k, v in list(vars(obj).items()):
             mutate(v, seen, depth + 1)
+
+
+def _holds_argument(obj, mine, seen, depth=0, path='result'):
+    """path of the first object reachable from a result that is one of the caller's annotation objects"""
+    if depth > 6 or id(obj) in seen or obj is None or isinstance(obj, (str, int, float, bool, bytes)):
+        return None
+    seen.add(id(obj))
+    if id(obj) in mine:
+        return f'{path} is the argument {mine[id(obj)]}'
+    if isinstance(obj, (list, tuple, set, frozenset)):
+        for i, x in enumerate(obj):
+            h = _holds_argument(x, mine, seen, depth + 1, f'{path}[{i}]')
+            if h:
+                return h
+    elif isinstance(obj, dict):
+        for k, x in obj.items():
+            h = _holds_argument(x, mine, seen, depth + 1, f'{path}[{k!r}]')
+            if h:
+                return h
+    elif dataclasses.is_dataclass(obj):
+        for f in dataclasses.fields(obj):
+            h = _holds_argument(getattr(obj, f.name, None), mine, seen, depth + 1, f'{path}.{f.name}')
+            if h:
+                return h
+    return None
 
 
 def check(case, ctx):
@@ -445,6 +470,13 @@ def check(case, ctx):
             ctx.fail('result-depends-on-history', exp[:300], got[:300], **where)
             return
         last = r if st == 'ok' else None
+    # aliasing: a result never *is*, nor holds (also not as Fragment.parent_sequence), one of the caller's peptide objects
+    if last is not None:
+        mine = {id(W[k]): k for k in ('A', 'B', 'B2', 'C', 'C2') if k in W}
+        held = _holds_argument(last, mine, set())
+        if held:
+            ctx.fail('result-holds-argument-object', 'a fresh object', held, **where)
+            return
     # aliasing: editing the last result must not reach the arguments
     if last is not None:
         mutate(last, set())
